@@ -8,7 +8,8 @@
    (empty reads included, which the Go reader never produces). *)
 From JT.Base Require Import Prelude.
 From JT.Model Require Import Frame Unpack.
-From JT.Proofs Require Import Unpack_proofs.
+From JT.Model Require Import Subpkg.
+From JT.Proofs Require Import Unpack_proofs Unpack_run_proofs.
 
 (* however the stream is cut into reads: exactly one message per frame, in order, each the
    decoding of its frame; no error; nothing left in the history *)
@@ -84,6 +85,26 @@ Theorem C04_reader_prompt : forall reg fs chunks rest, Forall vframe fs -> Foral
 Proof. intros reg fs chunks rest Hv _. exact (reader_events_prompt reg fs chunks rest Hv). Qed.
 Print Assumptions C04_reader_prompt.
 
+(* the same at the level the reader really works on: connection.reader hands every read to packageParse.parse
+   (unpack, then the sub-package bookkeeping of Model/Subpkg.v), at whatever times.  For valid frames whose fragment
+   bit is clear, the loop of parse over ANY partition into reads read at ANY clock values delivers exactly
+   decode_ok of the frames, in order, as plain messages, and ends with an empty history and an empty transfer table:
+   this is where the [unfragmented] hypothesis of the two reader statements above is discharged against parse
+   itself (through C05_parse_unfragmented for one read and C05_unfragmented_decoded for the fragment bit) *)
+Theorem C04_parse_run_segmentation : forall fs reads, Forall vframe fs -> Forall unfragmented fs ->
+  concat (map snd reads) = concat fs ->
+  parse_run pst0 reads [] = (pst0, map plain (map decode_ok fs), None).
+Proof. exact parse_run_segmentation. Qed.
+Print Assumptions C04_parse_run_segmentation.
+
+(* and for any run whose extracted messages all have package total 0, from any state with an empty table *)
+Theorem C04_parse_run_as_unpack : forall reads st acc0, ps_x st = [] ->
+  let o := run_unpack (ps_hist st) (map snd reads) acc0 in
+  Forall (fun rm => m_sum (snd rm) = 0) (u_msgs o) ->
+  parse_run st reads (map plain acc0) = ({| ps_hist := u_hist o; ps_x := [] |}, map plain (u_msgs o), u_err o).
+Proof. exact parse_run_as_unpack. Qed.
+Print Assumptions C04_parse_run_as_unpack.
+
 (* non-vacuity: a 2013 heartbeat and a frame whose body is the two escaped bytes 7e 7d are valid
    frames; fed byte by byte, whole, and cut inside the escape pair they give the same two messages *)
 Definition ex_hb : list N := [126; 0; 2; 0; 0; 1; 35; 69; 103; 137; 1; 0; 1; 139; 126].
@@ -111,6 +132,18 @@ Example C04_prompt_example :
   frames_within [ex_hb; ex_esc] 20 = [ex_hb] /\
   map (fun x => m_id (snd x)) (u_msgs r) = [2] /\ u_hist r = firstn 5 ex_esc /\ u_err r = None.
 Proof. vm_compute. repeat split; reflexivity. Qed.
+
+(* non-vacuity of C04_reader_prompt on a PROPER prefix and of C04_parse_run_segmentation: after 20 of the 30 bytes
+   of heartbeat ++ unsupported frame (two reads of 10) exactly the heartbeat has been dispatched; the whole stream
+   read in three pieces at three different times through parse gives the two plain messages *)
+Example C04_reader_prompt_example :
+  let s := ex_hb ++ [126; 0; 3; 0; 0; 1; 35; 69; 103; 137; 1; 0; 2; 137; 126] in
+  map (fun e => match e with RExec _ m => (1, m_id m) | RUnsupported _ m => (0, m_id m) | RReissue _ m => (2, m_id m) end)
+      (fst (reader_run registered_ids [] [firstn 10 s; firstn 10 (skipn 10 s)] [])) = [(1, 2)] /\
+  map (fun p => (m_id (p_msg p), p_complete p))
+      (snd (fst (parse_run pst0 [(5, firstn 7 s); (9000, firstn 16 (skipn 7 s)); (9001, skipn 23 s)] []))) =
+    [(2, false); (3, false)].
+Proof. vm_compute. split; reflexivity. Qed.
 
 (* non-vacuity at the reader level: a heartbeat (registered id 2), a frame with the unregistered id 0x0003 and a
    second heartbeat, cut inside the second frame: all three are dispatched in order, the middle one as unsupported *)
